@@ -289,7 +289,11 @@ func (g *G) insertExpr() string {
 		n := 1 + g.R.Intn(4)
 		cols := g.list(n, func() string { return g.R.Pick(plainIdents) })
 		vals := g.list(n, func() string {
-			switch g.R.Intn(6) {
+			switch g.R.Intn(8) {
+			case 6:
+				return g.RandLiteral()
+			case 7:
+				return g.R.Pick(numbers) + g.optBlank() + g.RandComment()
 			case 0:
 				return g.R.Pick(literals)
 			case 1:
@@ -318,8 +322,55 @@ func (g *G) expr() string {
 	}
 }
 
+var bodyAlphabet = []string{"*", "*", "/", "-", "'", "\"", " ", "x", "\n", "$T.a", "&T.*", "(", ")", ",", "**", "*/x", "--"}
+
+func (g *G) body(n int, forbid string) string {
+	var sb strings.Builder
+	for i := 0; i < n; i++ {
+		t := g.R.Pick(bodyAlphabet)
+		if forbid != "" && strings.Contains(t, forbid) {
+			continue
+		}
+		sb.WriteString(t)
+	}
+	return sb.String()
+}
+
+// RandComment builds a comment with a random body (runs of '*', '/', '-', quotes, newlines).
+func (g *G) RandComment() string {
+	g.count("rand-comment")
+	switch g.R.Intn(5) {
+	case 0:
+		return "--" + g.body(g.R.Intn(6), "\n") + "\n"
+	case 1:
+		return "/*" + g.body(g.R.Intn(6), "") // possibly unterminated
+	default:
+		b := g.body(g.R.Intn(6), "")
+		// make sure the body itself does not contain the terminator
+		b = strings.ReplaceAll(b, "*/", "* /")
+		stars := strings.Repeat("*", g.R.Intn(3))
+		return "/*" + stars + b + stars + "*/"
+	}
+}
+
+// RandLiteral builds a quoted literal with a random body, quotes doubled.
+func (g *G) RandLiteral() string {
+	g.count("rand-literal")
+	q := g.R.Pick([]string{"'", "\""})
+	b := g.body(g.R.Intn(6), "")
+	b = strings.ReplaceAll(b, q, q+q)
+	if g.R.Chance(1, 12) {
+		return q + b // unclosed
+	}
+	return q + b + q
+}
+
 func (g *G) glue() string {
-	switch g.R.Intn(14) {
+	switch g.R.Intn(17) {
+	case 14, 15:
+		return g.RandComment()
+	case 16:
+		return g.RandLiteral()
 	case 0, 1, 2:
 		return g.blank()
 	case 3, 4:
